@@ -50,6 +50,32 @@ def big_scenario(nlines, multi):
             'regs': [[0, k] for k in range(len(files))], '_twice': False}
 
 
+def empty_run():
+    """ a searcher whose registrations denote no file at all (empty directory, glob without
+    match): run() returns an empty collection and all-zero statistics """
+    core.import_searchkit()
+    from searchkit import FileSearcher, SearchDef
+    tmpdir = tempfile.mkdtemp(prefix='vh-')
+    try:
+        os.mkdir(os.path.join(tmpdir, 'empty'))
+        out = []
+        for targets in ([], ['empty'], ['no*match'], ['empty', 'none.*']):
+            fs = FileSearcher()
+            for t in targets:
+                fs.add(SearchDef(r'.*', tag='t'), os.path.join(tmpdir, t))
+            try:
+                res = fs.run()
+                out.append({'targets': targets, 'len': len(res), 'files': len(fs.files),
+                            'stats': {k: fs.stats[k] for k in
+                                      ('searches', 'searches_by_job', 'lines_searched',
+                                       'jobs_completed', 'total_jobs', 'results')}})
+            except Exception as e:  # pylint: disable=broad-except
+                out.append({'targets': targets, 'err': type(e).__name__})
+        return out
+    finally:
+        shutil.rmtree(tmpdir, ignore_errors=True)
+
+
 def run_impl(scn):
     tmpdir = tempfile.mkdtemp(prefix='vh-')
     try:
@@ -166,7 +192,8 @@ def run(tier, seed, replay_case=None):
     aud = core.audit(PROP)
     n_single, n_multi = (400, 15) if tier == 'quick' else (5000, 200)
     items = []
-    corpus = core.load_corpus(PROP) if replay_case is None else [replay_case]
+    is_empty = replay_case is not None and 'empty_catalog' in replay_case
+    corpus = core.load_corpus(PROP) if replay_case is None else ([] if is_empty else [replay_case])
     if corpus:
         items += eval_cases(None, 0, {'fixed': corpus})
     if replay_case is None:
@@ -179,6 +206,16 @@ def run(tier, seed, replay_case=None):
         ndq = 4 if tier == 'quick' else 40
         items += core.run_sharded(eval_cases, seed + 2, ndq, {'tier': tier, 'deepq': True},
                                   shards=min(4, ndq), workers=4)
+    if replay_case is None or is_empty:
+        for e in core.run_sharded(lambda _r, _c, _x: empty_run(), seed, 1, shards=1, workers=2):
+            rep.evaluations += 1
+            rep.count('empty_catalog_runs')
+            want = {'searches': 0, 'searches_by_job': [], 'lines_searched': 0,
+                    'jobs_completed': 0, 'total_jobs': 0, 'results': 0}
+            if e.get('err') or e['len'] != 0 or e['files'] != 0 or e['stats'] != want:
+                rep.fail('failing-input', {'empty_catalog': e['targets']},
+                         f"registrations {e['targets']} denote no file: run() gave {e}; "
+                         f"expected an empty collection and {want}", impl=e, spec=want)
     drv = core.Driver()
     mruns = T.run_models([it['scn'] for it in items], drv)
     late = [i for i, it in enumerate(items) if it['scn'].get('_late_regs') and it['scn'].get('_twice')]
